@@ -1257,7 +1257,6 @@ int safec_vsnprintf_s(out_fct_type out, const char *funcname, char *buffer,
                     return len;
                 }
                 wstr[len] = '\0';
-                memcpy(buffer, wstr, len + 1);
 #else
                 char msg[80];
                 snprintf(msg, sizeof msg, "%s: unsupported %%lc arg", funcname);
